@@ -282,6 +282,11 @@ def call_ext(it: Any, f: ExtV, args: List[Any], kwargs: Dict[str, Any], node: An
 
         defaults = tuple(it.eval(d, args[0].env or Env(None, {}), args[0].module) for d in fa.defaults) if fa.defaults else None
         return Obj("inspect.FullArgSpec", attrs={"args": names, "defaults": defaults, "varargs": fa.vararg.arg if fa.vararg else None, "varkw": fa.kwarg.arg if fa.kwarg else None, "kwonlyargs": [p.arg for p in fa.kwonlyargs]}, open_attrs=False)
+    if name == "inspect.signature" and args and isinstance(args[0], FuncV):
+        fa = args[0].node.args
+        names = [p.arg for p in fa.posonlyargs + fa.args] + ([fa.vararg.arg] if fa.vararg else []) + [p.arg for p in fa.kwonlyargs] + ([fa.kwarg.arg] if fa.kwarg else [])
+        params = {n: Obj("inspect.Parameter", attrs={"name": n}, open_attrs=False) for n in names}
+        return Obj("inspect.Signature", attrs={"parameters": params}, open_attrs=False)
     if name == "itertools.zip_longest":
         seqs = [it.concrete_iter(a) for a in args]
         if any(x is None for x in seqs):
